@@ -458,7 +458,9 @@ func genTable(r *Rng, router int, maxWs int) (TableSpec, []genRoute) {
 			if crossed {
 				rs.Method = sibling.Method
 			}
+			contested := false
 			if sibling != nil && r.Pct(45) {
+				contested = true
 				// contested negotiation: same method as the sibling, one acceptable by name and one by wildcard only
 				rs.Method = sibling.Method
 				rs.Consumes = sibling.Consumes
@@ -477,7 +479,10 @@ func genTable(r *Rng, router int, maxWs int) (TableSpec, []genRoute) {
 			gr := genRoute{spec: rs, toks: append(append([]tplTok{}, rootToks...), toks...)}
 			if generic {
 				gr.twinOf = sibling.ID
-				gr.spec.Consumes, gr.spec.Produces = sibling.Consumes, sibling.Produces // eligible for the same requests
+				gr.spec.Consumes = sibling.Consumes // eligible for the same requests ...
+				if !contested {
+					gr.spec.Produces = sibling.Produces // ... unless the pair is to differ in how it is acceptable
+				}
 				sv.Routes[len(sv.Routes)-1] = gr.spec
 			}
 			all = append(all, gr)
@@ -726,6 +731,8 @@ type probe struct {
 	selPath   string
 	selFPath  string // selected route path seen by the route filter
 	selFSeen  bool
+	decoy     bool // set-up history: a service below the first root is added first and removed again at the end
+	warm      *Req // set-up history: services are served this request before their last route is added (see buildContainer)
 }
 
 // validTemplate tells whether go-restful can compile the template (it calls
@@ -784,8 +791,34 @@ func buildContainer(t TableSpec, pr *probe) (c *restful.Container, kept TableSpe
 	if nroutes%3 == 1 {
 		c.ServiceErrorHandler(equivalentServiceErrorHandler)
 	}
+	// process-wide configuration that is none of the router's business: the media type ReadEntity assumes for bodies that
+	// declare none (every case sets it anew)
+	restful.DefaultRequestContentType([]string{"", "application/json", "application/xml", "application/json"}[(nroutes+len(t.Services))%4])
 	kept = TableSpec{Router: t.Router}
 	roots := map[string]bool{}
+	// a container with a past: a service that once sat below the first root (its mux pattern is that root plus "/") and
+	// is removed again when everything else is in place. What is left answers like a container that never had it.
+	var decoy *restful.WebService
+	if pr.decoy {
+		for _, sv0 := range t.Services {
+			if validTemplate(sv0.Root) && sv0.Root != "/" && sv0.Root != "" {
+				d := new(restful.WebService)
+				d.Path(strings.TrimRight(sv0.Root, "/") + "/{zzdecoy}")
+				d.Route(d.GET("/").To(func(*restful.Request, *restful.Response) {}))
+				func() {
+					defer func() { recover() }()
+					c.Add(d)
+					decoy = d
+				}()
+				break
+			}
+		}
+	}
+	defer func() {
+		if decoy != nil {
+			c.Remove(decoy)
+		}
+	}()
 	for _, sv0 := range t.Services {
 		if !validTemplate(sv0.Root) || roots[sv0.Root] || (sv0.Root == "" && roots["/"]) || (sv0.Root == "/" && roots[""]) {
 			skipped++
@@ -802,7 +835,14 @@ func buildContainer(t TableSpec, pr *probe) (c *restful.Container, kept TableSpe
 		if sv.Root != "" { // (a service with the root "" never calls Path: Add gives it "/" when it is registered)
 			ws.Path(sv.Root)
 		}
-		ws.SetDynamicRoutes(true) // routes may be removed later (domain cors); serving is the same either way
+		// set-up history (when the probe carries a warm-up request): half of the services with two or more routes are
+		// ordinary static services that get their LAST route only after they were added and have served a request; a
+		// route added to a registered service is a route like any other from then on
+		late := pr.warm != nil && len(sv.Routes) >= 2 && sv.Routes[0].ID%2 == 0
+		var lateB *restful.RouteBuilder
+		if !late {
+			ws.SetDynamicRoutes(true) // routes may be removed later (domain cors); serving is the same either way
+		}
 		// set-up variation: when every route of the service declares its media types, half of the services declare the
 		// first route's lists on the WebService and leave them out on the routes that have exactly those (routes inherit
 		// what they do not declare)
@@ -825,6 +865,8 @@ func buildContainer(t TableSpec, pr *probe) (c *restful.Container, kept TableSpe
 				ws.Consumes(append([]string(nil), wsConsumes...)...)
 			}
 		}
+		var prevB *restful.RouteBuilder
+		prevPlain := false
 		for ri, rs := range sv.Routes {
 			rs := rs
 			if wsLevel && ri > 0 && (rs.ID+ri)%2 == 0 {
@@ -837,7 +879,20 @@ func buildContainer(t TableSpec, pr *probe) (c *restful.Container, kept TableSpe
 					ws.Consumes(append([]string(nil), wsConsumes...)...)
 				}
 			}
-			b := ws.Method(rs.Method).Path(rs.Rel)
+			// set-up variation: a route without conditions or switches of its own is often built with the builder of the
+			// route before it (method, path, media types and function set anew, the selection filter is on it already):
+			// everything about the new route is what was set for IT
+			plain := len(rs.Conds) == 0 && len(rs.NoCT) == 0 && len(rs.Enc) == 0
+			reuse := prevB != nil && prevPlain && plain && rs.ID%3 != 1
+			var b *restful.RouteBuilder
+			if reuse {
+				b = prevB.Method(rs.Method).Path(rs.Rel)
+				b.Consumes()
+				b.Produces()
+			} else {
+				b = ws.Method(rs.Method).Path(rs.Rel)
+			}
+			prevB, prevPlain = b, plain
 			if len(rs.Consumes) > 0 && !(wsConsumes != nil && sameStrings(rs.Consumes, wsConsumes)) {
 				b.Consumes(rs.Consumes...)
 			}
@@ -854,12 +909,14 @@ func buildContainer(t TableSpec, pr *probe) (c *restful.Container, kept TableSpe
 			if len(rs.Enc) > 0 {
 				b.ContentEncodingEnabled(rs.Enc[0])
 			}
-			b.Filter(func(rq *restful.Request, rp *restful.Response, ch *restful.FilterChain) {
-				if !pr.viaHeader {
-					pr.selFPath, pr.selFSeen = rq.SelectedRoutePath(), true
-				}
-				ch.ProcessFilter(rq, rp)
-			})
+			if !reuse {
+				b.Filter(func(rq *restful.Request, rp *restful.Response, ch *restful.FilterChain) {
+					if !pr.viaHeader {
+						pr.selFPath, pr.selFSeen = rq.SelectedRoutePath(), true
+					}
+					ch.ProcessFilter(rq, rp)
+				})
+			}
 			b.To(func(rq *restful.Request, rp *restful.Response) {
 				if pr.viaHeader {
 					ks := []string{}
@@ -883,7 +940,11 @@ func buildContainer(t TableSpec, pr *probe) (c *restful.Container, kept TableSpe
 				pr.selPath = rq.SelectedRoutePath()
 				rp.WriteHeader(200)
 			})
-			ws.Route(b)
+			if late && ri == len(sv.Routes)-1 {
+				lateB = b
+			} else {
+				ws.Route(b)
+			}
 		}
 		ok := func() (ok bool) {
 			defer func() {
@@ -894,6 +955,14 @@ func buildContainer(t TableSpec, pr *probe) (c *restful.Container, kept TableSpe
 			c.Add(ws)
 			return true
 		}()
+		if ok && lateB != nil {
+			func() {
+				defer func() { recover() }()
+				c.Dispatch(httptest.NewRecorder(), pr.warm.HTTP())
+			}()
+			*pr = probe{viaHeader: pr.viaHeader, decoy: pr.decoy, warm: pr.warm}
+			ws.Route(lateB)
+		}
 		if ok {
 			kept.Services = append(kept.Services, sv)
 		} else {
@@ -1138,7 +1207,7 @@ func runSlash(raw Sx) (Sx, Sx) {
 	q := sxReq(sxNth(raw, 1))
 	q2 := sxReq(sxNth(raw, 1))
 	q2.Path = q.Path + "/"
-	pr := &probe{}
+	pr := &probe{decoy: len(q.Path)%3 == 0}
 	c, kept, _ := buildContainer(t, pr)
 	if len(sxList(raw)) > 2 && sxBool(sxNth(raw, 2)) {
 		c.Filter(c.OPTIONSFilter)
@@ -1351,7 +1420,7 @@ func runPerm(raw Sx) (Sx, Sx) {
 	perms := sxList(sxNth(raw, 2))
 	// services that cannot be added in the given order (mux pattern conflicts) are dropped
 	// from the table for every permutation, so that all builds hold the same content
-	pr0 := &probe{}
+	pr0 := &probe{warm: q}
 	_, kept, _ := buildContainer(t, pr0)
 	obs := Ls{}
 	// per build: the answer of Dispatch, and as 8th element the answer of ServeHTTP (the mux in front of dispatch is set
@@ -1361,14 +1430,14 @@ func runPerm(raw Sx) (Sx, Sx) {
 		*pr = probe{}
 		return append(append(Ls{}, sxList(d)...), serveObs(c, pr, q))
 	}
-	obs = append(obs, func() Sx { pr := &probe{}; c, _, _ := buildContainer(kept, pr); return both(c, pr) }())
+	obs = append(obs, func() Sx { pr := &probe{warm: q}; c, _, _ := buildContainer(kept, pr); return both(c, pr) }())
 	usable := Ls{}
 	if len(kept.Services) != len(t.Services) {
 		perms = nil // permutations refer to a table that cannot be built as given
 	}
 	for _, p := range perms {
 		pt := applyPerm(kept, p)
-		pr := &probe{}
+		pr := &probe{warm: q}
 		c, k2, skipped := buildContainer(pt, pr)
 		if skipped > 0 || len(k2.Services) != len(kept.Services) {
 			continue // this order trips the mux panic (finding F4 / C11): not a C03 matter
